@@ -34,6 +34,47 @@ type c08Case struct {
 	Schedule []int      `json:"schedule,omitempty"`
 	Page     int        `json:"page,omitempty"`
 	Variant  string     `json:"variant,omitempty"`
+	// repair part: the history of signals from the network layer, I = IncorrectStateDetected, C = CorrectStateDetected;
+	// Signals are sent before the first round of checkPage calls, Mid between the first and a second round
+	Signals string `json:"signals,omitempty"`
+	Mid     string `json:"mid,omitempty"`
+	Driver  bool   `json:"driver,omitempty"` // the passes are made by the product's own ticker-driven loop (xorTreeRepair.start)
+}
+
+// c08Signal sends the signal history through the State's public methods (what the protocol calls) and returns the
+// reference count of the product's activation rule: every incorrect signal counts, a correct signal resets.
+func c08Signal(s *state, count int, signals string) int {
+	for _, sg := range signals {
+		if sg == 'I' {
+			s.IncorrectStateDetected()
+			count++
+		} else {
+			s.CorrectStateDetected()
+			count = 0
+		}
+	}
+	return count
+}
+
+// c08Active is the product's own activation rule as documented on xorTreeRepair: the loop is triggered when the network
+// layer has reported mismatches up to the red state of the circuit (the constant circuitRed is read, not a literal) and
+// "continues looping until the network layer signals all is ok again".
+func c08Active(count int) bool { return count >= int(circuitRed) }
+
+func c08SignalClass(prefixCount, midCount int, signals, mid string) string {
+	cls := "inactive"
+	switch {
+	case c08Active(prefixCount) && prefixCount == int(circuitRed):
+		cls = "at-threshold"
+	case c08Active(prefixCount):
+		cls = "above-threshold"
+	case mid != "" && c08Active(midCount):
+		cls = "activated-midway"
+	}
+	if cls != "inactive" && strings.Contains(signals+mid, "C") {
+		cls += "+after-correct"
+	}
+	return "signals:" + cls
 }
 
 func c08Selftest(t *testing.T, r *ev.Run, w *c08World) {
@@ -538,7 +579,7 @@ func TestVerifC08Sched(t *testing.T) {
 				// corrupt page 0 in memory and on disk, then let the repair run concurrently
 				in.st.xorTree.tree.Insert(phantom, 3)
 				_ = in.kv.Write(c08ctx, func(tx stoabs.WriteTx) error { return in.st.xorTree.writeWithoutLock(tx) })
-				in.st.xorTreeRepair.circuitState = circuitRed
+				c08Signal(in.st, 0, strings.Repeat("I", int(circuitRed)))
 				in.st.xorTree.tree = &c08TreeProxy{Tree: in.st.xorTree.tree, before: func() {
 					replaceCalls++
 					if in.st.xorTree.mutex.TryLock() {
@@ -712,7 +753,13 @@ func TestVerifC08Repair(t *testing.T) {
 			w.trouble("an injected corruption was not visible as an XOR mismatch before the repair (cases skipped)")
 			return "skipped", nil, 0
 		}
-		in.st.xorTreeRepair.circuitState = circuitRed
+		signals := c.Signals
+		if signals == "-" {
+			signals = ""
+		}
+		count1 := c08Signal(in.st, 0, signals)
+		corrupted := c08RawLeaves(in, xorShelf)
+		xorCorrupted, _ := in.st.XOR(MaxLamportClock)
 		// the loop is driven from its own initial position, never positioned by the harness: 2*pages+1 calls make every
 		// page due at least twice, the wrap-around after the last page included. firstPass = number of write steps of the
 		// first pages+1 calls (the fault enumeration is over those)
@@ -725,8 +772,15 @@ func TestVerifC08Repair(t *testing.T) {
 				}
 			}
 		}
+		count2 := count1
 		in.kv.Arm(fault.Plan{Mode: f.mode, At: f.at})
-		stopped := fault.Run(func() { cycle(in.st, 2*pages+1) })
+		stopped := fault.Run(func() {
+			cycle(in.st, 2*pages+1)
+			if c.Mid != "" && !in.kv.Dead() {
+				count2 = c08Signal(in.st, count1, c.Mid)
+				cycle(in.st, pages+1) // from any position of the loop, pages consecutive passes visit every page
+			}
+		})
 		trace := in.kv.Trace()
 		fired, at := in.kv.Fired()
 		in.kv.Disarm()
@@ -740,7 +794,7 @@ func TestVerifC08Repair(t *testing.T) {
 		if stopped != nil || in.kv.Dead() {
 			// stop inside the repair: restart; the node is again in the corrupted-or-repaired state and the repair runs again
 			in = in.reopen()
-			in.st.xorTreeRepair.circuitState = circuitRed
+			c08Signal(in.st, 0, strings.Repeat("I", int(circuitRed)))
 			cycle(in.st, pages+1)
 		}
 		shape := "inner-page"
@@ -754,9 +808,22 @@ func TestVerifC08Repair(t *testing.T) {
 				shape = "last-page"
 			}
 		}
-		class := corruption + "|" + place + "|" + shape
+		class := corruption + "|" + place + "|" + shape + "|" + c08SignalClass(count1, count2, signals, c.Mid)
 		if f.mode != fault.None {
 			class += "|" + f.mode.String() + "@" + at.Label()
+		}
+		if !c08Active(count1) && !(c.Mid != "" && c08Active(count2)) {
+			// fewer signals than the activation rule asks for: the procedure must not change anything
+			now := c08RawLeaves(in, xorShelf)
+			xorNow, _ := in.st.XOR(MaxLamportClock)
+			changed := len(now) != len(corrupted) || !xorNow.Equals(xorCorrupted)
+			for k, v := range corrupted {
+				changed = changed || now[k] != v
+			}
+			if changed {
+				r.Violation("C08|repair|"+class+"|changed-while-inactive", fmt.Sprintf("the repair procedure changed the XOR tree although it is not active after the signals %q / %q", signals, c.Mid), c)
+			}
+			return "inactive:nothing-changed", trace, firstPass
 		}
 		j := in.judge()
 		c08Report(r, "repair", class+"|live", j, c)
